@@ -227,7 +227,7 @@ prop("C20", "exploration", (36, 600),
           "the dummy proof of dummy_circuit(common) verifies; or (1/12) a cyclic chain of length 1-3 after the base case (cyclic_base_proof): every link proves, verifies, passes check_cyclic_proof_verifier_data and carries reference-correct "
           "public inputs (textbook Poseidon iteration, counter), and +1 on EVERY embedded verifier-data element is caught by check_cyclic_proof_verifier_data (every 7th also through verify). "
           "Oracle for the matrix: outer assignment + witness generation + statement checker accept  <=>  the native verifier accepts the SELECTED proof under the SELECTED key. "
-          "The conditional matrix is repeated with a condition that is a circuit constant (_true / _false); cyclic circuits are built with cap heights 0-5; a Byzantine chain (a link proved under altered verifier data on top of the dummy base case, then an honest step) must not yield an accepted tip. distinct = (scenario, cell); non-trivial = the two branches differ in validity (conditional), every cell (or-dummy, cyclic)",
+          "The conditional matrix is repeated with a condition that is a circuit constant (_true / _false); cyclic circuits are built with cap heights 0-4; a Byzantine chain (a link proved under altered verifier data on top of the dummy base case, then an honest step) must not yield an accepted tip. distinct = (scenario, cell); non-trivial = the two branches differ in validity (conditional), every cell (or-dummy, cyclic)",
      technique="deterministic simulation: aggregator with two inner proofs and a condition (full validity matrix), dummy branch, and cyclic chains as histories; native verifier as reference model",
      text="Seeded exploration of conditional verification as a matrix over condition and validity of each branch and key, and of cyclic recursion as multi-step histories with alteration of the embedded verifier data.",
      note="Shapes for which the library's dummy_circuit cannot reproduce the common data (a build-time assert) or whose cap height differs from the outer configuration's are outside the or-dummy variant's preconditions and skip that part (probe counts both). Cyclic chains use the standard recursion configuration (2^12-row circuit).")
